@@ -427,7 +427,7 @@ def h_relink_group(env, species, factor, staying, leaving, canary=False):
                    detail=str(ax_out - ax_tmpl))
 
 
-def h_dmet_reorder(env, nested, canary=False):
+def h_dmet_reorder(env, nested, canary=False, q=0, spin=0):
     """DMET bookkeeping that is pure Python (no claim about DMET energies): nested lists of atom indices are turned into
     fragment sizes and the geometry is reordered so that the k-th fragment consists of exactly the listed atoms, in the
     listed order (enumerated, concrete geometry; the mean field of a small H chain is computed by PySCF)"""
@@ -438,9 +438,10 @@ def h_dmet_reorder(env, nested, canary=False):
     n = sum(len(f) for f in nested)
     xyz = [("H", (0.0, 0.13 * (i % 2), 0.9 * i + 0.07 * i * i)) for i in range(n)]
     with shim.concrete_mode():
-        mol = SecondQuantizedMolecule(xyz, q=0, spin=0, basis="sto-3g", frozen_orbitals=None)
+        mol = SecondQuantizedMolecule(xyz, q=q, spin=spin, basis="sto-3g", frozen_orbitals=None, uhf=bool(spin))
         ref = mol_to_pyscf(mol, mol.basis)
-        dmet = DMETProblemDecomposition({"molecule": mol, "fragment_atoms": nested, "fragment_solvers": "ccsd", "verbose": False})
+        opts = {"molecule": mol, "fragment_atoms": nested, "fragment_solvers": "ccsd", "verbose": False}
+        dmet = DMETProblemDecomposition(opts)
     flat = [a for f in nested for a in f]
     if canary:
         flat = flat[::-1]
@@ -448,6 +449,10 @@ def h_dmet_reorder(env, nested, canary=False):
     got = [tuple(round(float(x), 8) for x in dmet.molecule._atom[p][1]) for p in range(n)]
     want = [tuple(round(float(x), 8) for x in ref._atom[a][1]) for a in flat]
     env.check_same(got, want, f"atom at position p of the reordered molecule is the p-th listed atom (fragments {nested})")
+    # relabelling must not change WHAT is computed: charge, spin, basis and electron count of the reordered molecule
+    env.check_same((int(dmet.molecule.charge), int(dmet.molecule.spin), str(dmet.molecule.basis), int(dmet.molecule.nelectron)),
+                   (int(ref.charge), int(ref.spin), str(ref.basis), int(ref.nelectron)),
+                   f"reordered molecule keeps charge / spin / basis / electron count (q={q}, spin={spin})")
 
 
 def shapes(tier, seed):
@@ -466,6 +471,9 @@ def shapes(tier, seed):
     for i, nested in enumerate(perms):
         nm = "_".join("".join(map(str, f)) for f in nested)
         out.append(Shape(f"dmet/reorder/{i}_{nm}", h_dmet_reorder, dict(nested=nested)))
+    out.append(Shape("dmet/reorder/triplet_01_23", h_dmet_reorder, dict(nested=[[0, 1], [2, 3]], spin=2)))
+    out.append(Shape("dmet/reorder/cation-doublet_21_03", h_dmet_reorder, dict(nested=[[2, 1], [0, 3]], q=1, spin=1)))
+    out.append(Shape("dmet/reorder/dication_10_32", h_dmet_reorder, dict(nested=[[1, 0], [3, 2]], q=2, spin=0)))
     out.append(Shape("canary/dmet/reorder", h_dmet_reorder, dict(nested=[[1, 2], [0, 3]], canary=True), canary=True))
     n = len(GEOM7)
     # ---- (a) fixed core
